@@ -2,7 +2,7 @@
    This file contains only the property theorems; each is closed by an exact lemma. *)
 From Coq Require Import String ZArith List Bool.
 From PB Require Import C01.Wrapper C16.SigTable C16.Bind C16.BindProofs C16.Model C16.Proofs
-  C16.PerPoint C16.PerPointProofs C16.InnerProofs C16.MethodCase C16.MethodCaseProofs C16.ArrayParams C16.ArrayParamsProofs gen.GenSigs C16.TableProofs.
+  C16.PerPoint C16.PerPointProofs C16.InnerProofs C16.MethodCase C16.MethodCaseProofs C16.ArrayParams C16.ArrayParamsProofs C16.DtypeProofs gen.GenSigs C16.TableProofs.
 Import ListNotations.
 Open Scope Z_scope.
 
@@ -333,6 +333,61 @@ Print Assumptions C16_kwargs_loads_table.
 Theorem C16_kwargs_loads_table_sound : forall k, In k kwargs_loads -> kl_use k <> KwUnknown.
 Proof. exact table_kwargs_loads. Qed.
 Print Assumptions C16_kwargs_loads_table_sound.
+
+(* ---- end to end on the prologue model: same numbers => same result, cast to the output dtype ---- *)
+
+(* For EVERY method body that is a function of the numbers it receives (algo_ext), two inputs whose float64 casts hold the same
+   numbers -- any container, (N,), (N,1), (1,N), memory layout, dtype -- give, through normalisation, float64 cast, body and
+   final cast, the same output dtype (whenever output_dtype is given, or the two input dtypes agree) and the same result, for every N.
+   This replaces the unfolding-only C16_dtype_rule_partial as the statement of the dtype / container clause on the model;
+   what stays outside is that NumPy's casts are the `cast` of the model and that the real bodies are extensional (oracle). *)
+Theorem C16_same_numbers_same_result_1d : forall (V : Type) (cast : dtype -> V -> V) (algo : nd V -> nd V),
+  (forall a b, nd_equiv a b -> nd_equiv (algo a) (algo b)) ->
+  forall given (d1 d2 : desc V) t1 t2 r1 r2,
+  same_den (map_nd (cast F64) (as_nd d1)) (map_nd (cast F64) (as_nd d2)) ->
+  out_dtype given (d_dtype d1) = out_dtype given (d_dtype d2) ->
+  run_1d cast algo given d1 = Some (t1, r1) -> run_1d cast algo given d2 = Some (t2, r2) ->
+  t1 = t2 /\ nd_equiv r1 r2.
+Proof. exact @run_1d_same_result. Qed.
+Print Assumptions C16_same_numbers_same_result_1d.
+
+(* 2-D: (M,N), (M,N,1), (1,M,N), (M,1,N) with the same non-singleton shape, every M and N *)
+Theorem C16_same_numbers_same_result_2d : forall (V : Type) (cast : dtype -> V -> V) (algo : nd V -> nd V),
+  (forall a b, nd_equiv a b -> nd_equiv (algo a) (algo b)) ->
+  forall given (d1 d2 : desc V) t1 t2 r1 r2,
+  Forall (fun d => 0 < d) (d_shape d1) -> Forall (fun d => 0 < d) (d_shape d2) ->
+  squeeze (d_shape d1) = squeeze (d_shape d2) ->
+  same_den (map_nd (cast F64) (as_nd d1)) (map_nd (cast F64) (as_nd d2)) ->
+  out_dtype given (d_dtype d1) = out_dtype given (d_dtype d2) ->
+  run_2d cast algo given d1 = Some (t1, r1) -> run_2d cast algo given d2 = Some (t2, r2) ->
+  t1 = t2 /\ nd_equiv r1 r2.
+Proof. exact @run_2d_same_result. Qed.
+Print Assumptions C16_same_numbers_same_result_2d.
+
+(* with an explicit output_dtype nothing is asked of the input dtypes *)
+Theorem C16_same_result_given_output_dtype : forall (V : Type) (cast : dtype -> V -> V) (algo : nd V -> nd V),
+  (forall a b, nd_equiv a b -> nd_equiv (algo a) (algo b)) ->
+  forall g (d1 d2 : desc V) t1 t2 r1 r2,
+  same_den (map_nd (cast F64) (as_nd d1)) (map_nd (cast F64) (as_nd d2)) ->
+  run_1d cast algo (Some g) d1 = Some (t1, r1) -> run_1d cast algo (Some g) d2 = Some (t2, r2) ->
+  t1 = g /\ t2 = g /\ nd_equiv r1 r2.
+Proof. exact @run_1d_same_result_given. Qed.
+Print Assumptions C16_same_result_given_output_dtype.
+
+(* the hypotheses are satisfiable: a float32 (N,1) Fortran column and an int64 list with the same numbers, identity casts,
+   a body that doubles every value *)
+Example C16_same_result_nonvacuous :
+  let d1 := {| d_cont := CArray; d_layout := LF; d_dtype := F32; d_shape := [3; 1];
+               d_mem := fun o => nth (Z.to_nat o) [4; 5; 6] 0 |} in
+  let d2 := {| d_cont := CList; d_layout := LC; d_dtype := I64; d_shape := [3];
+               d_mem := fun o => nth (Z.to_nat o) [4; 5; 6] 0 |} in
+  let algo := fun a : nd Z => map_nd (fun v => 2 * v) a in
+  match run_1d (fun _ v => v) algo (Some F64) d1, run_1d (fun _ v => v) algo (Some F64) d2 with
+  | Some (t1, r1), Some (t2, r2) =>
+      t1 = F64 /\ t2 = F64 /\ nd_shape r1 = [3] /\ map (flat r1) [0; 1; 2] = [8; 10; 12] /\ map (flat r2) [0; 1; 2] = [8; 10; 12]
+  | _, _ => False
+  end.
+Proof. vm_compute. repeat split; reflexivity. Qed.
 
 (* ---- hypotheses are satisfiable ---- *)
 Open Scope string_scope.
